@@ -4,8 +4,10 @@
 Mirrors `/repo/sqlobject/cache.py` (`CacheFactory.get/put/finishPut/created/cull/expire/expireAll`,
 `CacheSet.get/created/expire/weakrefAll` after the `setdefault` fix) and the cache-facing part of
 `/repo/sqlobject/main.py` (`SQLObject.get` miss path with `try … finally finishPut`,
-`_SO_finishCreate` → INSERT → `cache.created` → `_init` SELECT) for one class on one connection,
-`doCache = True`.
+`_SO_finishCreate` → INSERT → `cache.created` → `_init` SELECT) for one class on one connection, in both
+modes of the connection: `doCache = True` (`dc`), and `doCache = False` where only `expiredCache` is used
+(unlocked weak probe, acquire, weak probe again; `put` / `created` store a weak reference; `expireAll` is a
+no-op; no cull bookkeeping).
 
 ATOMIC ACTIONS ARE THE SHARED ACCESSES: one dict get/set/del/`in`, one `list(d.keys())`, one `next()`
 of a dict iterator, the `self.cache = {}` rebinding, one lock acquire (blocking) / release, one read
@@ -19,7 +21,7 @@ not part of reference cycles: `sqlmeta.instance` and `SQLObjectState.soObject` a
 (`refs`: every instance a thread has obtained; threads keep what they got), nor by the environment
 (`pins`).  `alive` computes that; the dead-weakref branches of `get` and `cull` follow it.
 
-Not modelled (see META['modelled'] of harness/c09.py): `doCache = False`, preemption inside a C-level dict
+Not modelled (see META['modelled'] of harness/c09.py): preemption inside a C-level dict
 operation, a cyclic-GC / non-refcounting interpreter, OS scheduling/fairness.
 -/
 namespace SqlObjVerif.Conc
@@ -97,13 +99,15 @@ inductive Pc where
   | probe (i : Id) | acq (i : Id) | relook (i : Id) | relRel (i : Id) (o : Obj)
   | weakGet (i : Id) | weakDel (i : Id) (o : Obj) | weakDelDead (i : Id) (o : Obj) | strongSet (i : Id) (o : Obj) | relSet (i : Id) (o : Obj)
   | select (i : Id) | put (i : Id) (o : Obj) | finRel (i : Id) (o : Obj) | finRelNF (i : Id)
+  -- CacheFactory.get with doCache = False
+  | nProbe (i : Id) | nAcq (i : Id) | nRelook (i : Id)
   -- create
   | insert (i : Id) | crSet (i : Id) (o : Obj) | crSelect (i : Id) (o : Obj)
   -- expire
   | exAcq (i : Id) | exInStrong (i : Id) | exDelStrong (i : Id) | exInWeak (i : Id) | exDelWeak (i : Id)
   | exRel | exRelErr
   -- expireAll
-  | eaAcq | eaNext (pos used : Nat) | eaSetWeak (k : Id) (v : Obj) (pos used : Nat) | eaSwap | eaRel | eaRelErr
+  | eaEntry | eaAcq | eaNext (pos used : Nat) | eaSetWeak (k : Id) (v : Obj) (pos used : Nat) | eaSwap | eaRel | eaRelErr
   -- cull (embedded in get/created, or called directly)
   | cuEntry | cuAcq (k : K) | cuWeakKeys (k : K) | cuWeakChk (k : K) (ks : List Id)
   | cuWeakPop (k : K) (key : Id) (o : Obj) (rest : List Id) | cuStrongKeys (k : K)
@@ -118,6 +122,7 @@ structure Th where
 deriving Repr
 
 structure State where
+  dc : Bool               -- `doCache` of the connection (constant)
   caches : Bool           -- `CacheSet.caches` has the class' CacheFactory
   strong : AMap           -- `CacheFactory.cache`
   weak : AMap             -- `CacheFactory.expiredCache` (id ↦ weakly referenced object, all alive)
@@ -143,11 +148,11 @@ def alive (s : State) (o : Obj) : Bool := aliveIn s.refs s.pins s.strong o
 def setTh (f : Tid → Th) (t : Tid) (v : Th) : Tid → Th := fun u => if u = t then v else f u
 
 /-- where an operation first parks -/
-def entry (c : Bool) : Op → Pc
-  | .get i => if c then .ccTest (.get i) else .csGet (.get i)
+def entry (dc c : Bool) : Op → Pc
+  | .get i => if c then (if dc then .ccTest (.get i) else .nProbe i) else .csGet (.get i)
   | .create i => .insert i
   | .expire i => if c then .exAcq i else .csGet (.expire i)
-  | .expireAll => if c then .eaAcq else .csGet .expireAll
+  | .expireAll => if dc then (if c then .eaAcq else .csGet .expireAll) else .eaEntry
   | .cull => .cuEntry
 
 def goto (s : State) (t : Tid) (pc : Pc) : State :=
@@ -158,7 +163,8 @@ def goto (s : State) (t : Tid) (pc : Pc) : State :=
 def finish (s : State) (t : Tid) (o : Out) : State :=
   match (s.th t).prog with
   | [] => { s with th := setTh s.th t { pc := .idle, prog := [], outs := (s.th t).outs ++ [o] } }
-  | op :: rest => { s with th := setTh s.th t { pc := entry s.caches op, prog := rest, outs := (s.th t).outs ++ [o] } }
+  | op :: rest =>
+    { s with th := setTh s.th t { pc := entry s.dc s.caches op, prog := rest, outs := (s.th t).outs ++ [o] } }
 
 /-- after the cullCount bookkeeping (and the embedded cull, if any) -/
 def afterCC (s : State) (t : Tid) : K → State
@@ -168,8 +174,8 @@ def afterCC (s : State) (t : Tid) : K → State
 
 /-- after the class' CacheFactory was found in / installed into `caches` -/
 def afterCaches (s : State) (t : Tid) : K → State
-  | .get i => goto s t (.ccTest (.get i))
-  | .create i o => goto s t (.ccTest (.create i o))
+  | .get i => if s.dc then goto s t (.ccTest (.get i)) else goto s t (.nProbe i)
+  | .create i o => if s.dc then goto s t (.ccTest (.create i o)) else goto s t (.crSet i o)
   | .expire i => goto s t (.exAcq i)
   | .expireAll => goto s t .eaAcq
   | .cull => goto s t (.cuAcq .cull)
@@ -195,7 +201,10 @@ def step (s : State) (t : Tid) : Option State :=
   | .idle => none
   -- first use of the class on this connection
   | .csGet k =>
-    if s.caches then some (afterCaches s t k)
+    if s.caches then
+      (match k, s.dc with
+       | .expireAll, false => some (finish s t .unit)      -- doCache = False: expireAll returns at once
+       | _, _ => some (afterCaches s t k))
     else match k with
       | .get _ | .create _ _ => some (goto s t (.csSet k))
       | _ => some (finish s t .unit)
@@ -238,22 +247,46 @@ def step (s : State) (t : Tid) : Option State :=
   | .select i =>
     if i ∈ s.db then some (goto { s with fresh := s.fresh + 1, refs := s.refs ++ [s.fresh] } t (.put i s.fresh))
     else some (goto s t (.finRelNF i))
-  | .put i o => some (goto { s with strong := aset s.strong i o } t (.finRel i o))
+  | .put i o =>
+    if s.dc then some (goto { s with strong := aset s.strong i o } t (.finRel i o))
+    else some (goto { s with weak := aset s.weak i o } t (.finRel i o))     -- `expiredCache[id] = ref(obj)`
   | .finRel i o => some (releaseFinish s t (.obj i o))
   | .finRelNF i => some (releaseFinish s t (.notFound i))
+  -- get, doCache = False
+  | .nProbe i =>
+    match aget s.weak i with
+    | some o =>
+      if alive s o then some (finish { s with refs := s.refs ++ [o] } t (.obj i o))
+      else some (goto s t (.nAcq i))
+    | none => some (goto s t (.nAcq i))
+  | .nAcq i =>
+    match s.lock with
+    | none => some (goto { s with lock := some t } t (.nRelook i))
+    | some _ => none
+  | .nRelook i =>
+    match aget s.weak i with
+    | some o =>
+      if alive s o then some (goto { s with refs := s.refs ++ [o] } t (.relRel i o))
+      else some (goto s t (.weakDelDead i o))
+    | none => some (goto s t (.select i))
   -- create
   | .insert i =>
     if i ∈ s.db then some (finish s t (.exc .integrity))
     else
       let s' := { s with db := s.db ++ [i], fresh := s.fresh + 1, refs := s.refs ++ [s.fresh] }
-      if s.caches then some (goto s' t (.ccTest (.create i s.fresh)))
+      if s.caches then
+        (if s.dc then some (goto s' t (.ccTest (.create i s.fresh))) else some (goto s' t (.crSet i s.fresh)))
       else some (goto s' t (.csGet (.create i s.fresh)))
-  | .crSet i o => some (goto { s with strong := aset s.strong i o } t (.crSelect i o))
+  | .crSet i o =>
+    if s.dc then some (goto { s with strong := aset s.strong i o } t (.crSelect i o))
+    else some (goto { s with weak := aset s.weak i o } t (.crSelect i o))
   | .crSelect i o => if i ∈ s.db then some (finish s t (.obj i o)) else some (finish s t (.notFound i))
   -- expire
   | .exAcq i =>
     match s.lock with
-    | none => some (goto { s with lock := some t } t (.exInStrong i))
+    | none =>
+      if s.dc then some (goto { s with lock := some t } t (.exInStrong i))
+      else some (goto { s with lock := some t } t (.exInWeak i))
     | some _ => none
   | .exInStrong i =>
     match aget s.strong i with
@@ -274,6 +307,7 @@ def step (s : State) (t : Tid) : Option State :=
   | .exRel => some (releaseFinish s t .unit)
   | .exRelErr => some (releaseFinish s t (.exc .keyError))
   -- expireAll
+  | .eaEntry => if s.caches then some (finish s t .unit) else some (goto s t (.csGet .expireAll))
   | .eaAcq =>
     match s.lock with
     | none => some (goto { s with lock := some t } t (.eaNext 0 s.strong.length))
@@ -288,7 +322,7 @@ def step (s : State) (t : Tid) : Option State :=
   | .eaRel => some (releaseFinish s t .unit)
   | .eaRelErr => some (releaseFinish s t (.exc .runtimeError))
   -- cull
-  | .cuEntry => if s.caches then some (goto s t (.cuAcq .cull)) else some (finish s t .unit)
+  | .cuEntry => if s.caches && s.dc then some (goto s t (.cuAcq .cull)) else some (finish s t .unit)
   | .cuAcq k =>
     match s.lock with
     | none => some (goto { s with lock := some t } t (.cuWeakKeys k))
@@ -333,16 +367,16 @@ def run (s : State) : List Tid → State
     | none => run s ts
 
 /-- threads start parked at the first shared access of their first operation -/
-def startTh (c : Bool) : List Op → Th
+def startTh (dc c : Bool) : List Op → Th
   | [] => { pc := .idle, prog := [], outs := [] }
-  | op :: rest => { pc := entry c op, prog := rest, outs := [] }
+  | op :: rest => { pc := entry dc c op, prog := rest, outs := [] }
 
 /-- initial state: `strong`/`weak` hold objects `0 … fresh-1`; the environment references `pins` -/
-def mkInit (caches : Bool) (strong weak : AMap) (db : List Id) (fresh freq frac cc off : Nat)
+def mkInit (dc caches : Bool) (strong weak : AMap) (db : List Id) (fresh freq frac cc off : Nat)
     (pins : List Obj) (progs : Tid → List Op) : State :=
-  { caches := caches, strong := strong, weak := weak, lock := none, cc := cc, off := off, freq := freq,
+  { dc := dc, caches := caches, strong := strong, weak := weak, lock := none, cc := cc, off := off, freq := freq,
     frac := frac, db := db, fresh := fresh, stale := [], transit := none, refs := [], pins := pins,
-    th := fun t => startTh caches (progs t) }
+    th := fun t => startTh dc caches (progs t) }
 
 def finished (s : State) (t : Tid) : Bool := (s.th t).pc = .idle
 
